@@ -126,13 +126,16 @@ contract(F + 'FileCache._store_single_color_tile', props=['C05', 'C06'],
 
 
 # ---- legend cache and seed progress file: the file is only ever replaced through write_atomic ------------------------------
-def _only_write_atomic(target_of):
+def _only_write_atomic(target_of, skipped_if=None):
     def clause(ex, st, post, result):
         import z3
         from pyvc.values import eq
         wa = T.evs(st, 'write_atomic')
         direct = T.evs(st, 'open', 'write', 'unlink', 'remove', 'rename')
         goal = z3.BoolVal(len(wa) <= 1 and not direct)
+        if not wa:
+            # nothing written on this path: only allowed in the stated case (already stored) - a store is never silently dropped
+            goal = z3.And(goal, skipped_if(ex, st, post) if skipped_if is not None else z3.BoolVal(False))
         for i, e in wa:
             goal = z3.And(goal, eq(e.args[0], target_of(ex, st, post, e)))
         yield ('replaced_only_through_write_atomic', goal,
@@ -151,7 +154,8 @@ contract('mapproxy.cache.legend:LegendCache.store', props=['C06'],
                       'write_atomic': {'raises': ['OSError'], 'pure': True}, 'chmod': {'pure': True}},
          opaque=['write_atomic', 'legend_hash', 'ensure_directory'],
          raises={'OSError': True, 'ValueError': True},
-         trace=[_only_write_atomic(lambda ex, st, post, e: ex.opaque_field_at(st, e, post.env['legend'], 'location').val)])
+         trace=[_only_write_atomic(lambda ex, st, post, e: ex.opaque_field_at(st, e, post.env['legend'], 'location').val,
+                                   skipped_if=lambda ex, st, post: ex.truth(st, ex.opaque_field(st, post.env['legend'], 'stored')))])
 
 cls('mapproxy.seed.util:ProgressStore', fields=dict(filename='str', status='opaque'))
 contract('mapproxy.seed.util:ProgressStore.write', props=['C06'],
@@ -159,3 +163,137 @@ contract('mapproxy.seed.util:ProgressStore.write', props=['C06'],
          opaque_spec={'dumps': {'pure': True}, 'write_atomic': {'raises': ['OSError', 'IOError'], 'pure': True}},
          opaque=['write_atomic'],
          trace=[_only_write_atomic(lambda ex, st, post, e: st.heap[post.env['self'].ref]['filename'])])
+
+
+# ---- file cache: every operation on an address works on tile_location(tile, dimensions=<the caller's dimensions>) -------------------
+def _same_location(op_events, needs_create_dir=False):
+    def clause(ex, st, post, result):
+        import z3
+        from pyvc.values import eq
+        locs = [e for i, e in T.evs(st, 'tile_location', 'FileCache.tile_location')]
+        tile, dims = post.env['tile'], post.env['dimensions']
+        goal = z3.BoolVal(len(locs) <= 1)
+        for e in locs:
+            ok = any(a is tile for a in e.args) and 'dimensions' in e.kwargs and e.kwargs['dimensions'] is dims
+            goal = z3.And(goal, z3.BoolVal(bool(ok)))
+        for i, e in T.evs(st, *op_events):
+            # the file-system operation is applied to that location and to nothing else
+            ok = bool(locs) and e.args and any(a is locs[0].result for a in e.args)
+            goal = z3.And(goal, z3.BoolVal(bool(ok)))
+        yield ('operates_on_the_tile_location_of_these_dimensions', goal,
+               'the path touched is self.tile_location(tile, dimensions=dimensions) - the caller\'s dimension values, so tiles that '
+               'differ only in a dimension value never share a file')
+    return clause
+
+
+_FC_SPEC = {'is_missing': {'returns': 'bool', 'pure': True}, 'tile_location': {'returns': 'str', 'pure': True},
+            'exists': {'returns': 'bool', 'pure': True}, 'ImageSource': {'pure': True}, 'load_tile_metadata': {},
+            'remove': {'raises': ['OSError']}, 'lstat': {'raises': ['OSError']}, 'as_image': {'pure': True},
+            'is_single_color_image': {'pure': True}, '_store': {'raises': ['OSError']}, '_store_single_color_tile': {'raises': ['OSError']}}
+
+
+def _fc_answer(fn):
+    """what the operation answers / does, in terms of the one existence test on the tile's own location"""
+    def clause(ex, st, post, result):
+        import z3
+        from pyvc.values import eq
+        tile = post.env['tile']
+        miss = [e for i, e in T.evs(st, 'is_missing')]
+        exi = [e for i, e in T.evs(st, 'exists')]
+        srcs = [e for i, e in T.evs(st, 'setattr:source')]
+        meta = [e for i, e in T.evs(st, 'load_tile_metadata', 'FileCache.load_tile_metadata')]
+        goal = z3.BoolVal(len(miss) == 1 and miss[0].recv is not None and miss[0].recv.t.eq(tile.t))
+        if len(miss) == 1:
+            missing = ex.truth(st, miss[0].result)
+            present = ex.truth(st, exi[0].result) if exi else z3.BoolVal(False)
+            # the answer: True iff the tile already carries its data, or a file exists at its location
+            goal = z3.And(goal, ex.truth(st, result) == z3.Or(z3.Not(missing), present),
+                          z3.BoolVal(len(exi) <= 1), z3.Implies(missing, z3.BoolVal(len(exi) == 1)))
+            if fn == 'load_tile':
+                wm = ex.truth(st, post.env['with_metadata'])
+                # the bytes are attached exactly when they were missing and the file exists; metadata read iff asked for
+                goal = z3.And(goal, z3.And(missing, present) == z3.BoolVal(len(srcs) == 1),
+                              z3.Implies(z3.And(missing, present), wm == z3.BoolVal(len(meta) == 1)),
+                              z3.BoolVal(all(any(a is tile for a in m.args) for m in meta)))
+            else:
+                goal = z3.And(goal, z3.BoolVal(not srcs))
+        yield ('answer_is_presence_at_own_location', goal,
+               'result == (tile already has its data or os.path.exists(tile location)); load_tile attaches ImageSource(location) '
+               'exactly in the second case (with the metadata iff requested), is_cached changes nothing')
+    return clause
+
+
+def _fc_effect(fn):
+    """the operation really happens: store writes the tile (once, unless it is marked stored), remove removes the file"""
+    def clause(ex, st, post, result):
+        import z3
+        tile = post.env['tile']
+        loc = [e for i, e in T.evs(st, 'tile_location', 'FileCache.tile_location')]
+        if fn == 'remove_tile':
+            rm = [e for i, e in T.evs(st, 'remove')]
+            ok = len(rm) == 1 and len(loc) == 1 and rm[0].args[-1] is loc[0].result
+            yield ('remove_removes_the_file', z3.BoolVal(bool(ok)), 'exactly one os.remove(tile location) (a missing file is not an error)')
+            return
+        plain = [e for i, e in T.evs(st, '_store', 'FileCache._store')]
+        link = [e for i, e in T.evs(st, '_store_single_color_tile', 'FileCache._store_single_color_tile')]
+        stored = ex.truth(st, ex.opaque_field_at(st, (plain + link + loc)[0], tile, 'stored')) if (plain + link + loc) else \
+            ex.truth(st, ex.opaque_field(st, tile, 'stored'))
+        n = len(plain) + len(link)
+        goal = z3.BoolVal(n <= 1)
+        if n == 0:
+            goal = z3.And(goal, stored)               # nothing written: only for a tile that is already stored
+        for e in plain + link:
+            a = [x for x in e.args if x is not post.env['self']]
+            ok = len(loc) == 1 and len(a) >= 2 and a[0] is tile and a[1] is loc[0].result and loc[0].kwargs.get('create_dir') is not None
+            goal = z3.And(goal, z3.BoolVal(bool(ok)), z3.Not(stored))
+        if link:
+            # the shared single-colour file is used only when linking is configured and the image IS single-coloured
+            h = st.heap[post.env['self'].ref]
+            col = [e for i, e in T.evs(st, 'is_single_color_image')]
+            goal = z3.And(goal, ex.truth(st, h['link_single_color_images']),
+                          z3.BoolVal(len(col) == 1 and [x for x in link[0].args if x is not post.env['self']][2] is col[0].result),
+                          ex.truth(st, col[0].result) if col else z3.BoolVal(False))
+        yield ('store_writes_tile_once_at_its_location', goal,
+               'unless the tile is marked stored, exactly one of _store(tile, location) / _store_single_color_tile(tile, location, '
+               'colour) runs, on self.tile_location(tile, create_dir=True, dimensions=..); the shared-colour path only for a '
+               'single-coloured image with linking configured')
+    return clause
+
+
+for _fn, _ops, _types in (
+        ('is_cached', ('exists',), dict(tile='opaque', dimensions='opaque')),
+        ('load_tile', ('exists', 'ImageSource'), dict(tile='opaque', with_metadata='bool', dimensions='opaque')),
+        ('remove_tile', ('remove',), dict(tile='opaque', dimensions='opaque')),
+        ('store_tile', ('_store', '_store_single_color_tile', 'FileCache._store', 'FileCache._store_single_color_tile'),
+         dict(tile='opaque', dimensions='opaque')),
+        ('load_tile_metadata', ('lstat',), dict(tile='opaque', dimensions='opaque'))):
+    _extra = [_fc_answer(_fn)] if _fn in ('is_cached', 'load_tile') else [_fc_effect(_fn)] if _fn in ('store_tile', 'remove_tile') else []
+    contract(F + 'FileCache.' + _fn, props=['C05'], merge=(_fn == 'load_tile_metadata'),
+             types=_types, returns='opaque', default_callee='opaque',
+             opaque_fields={'stored': 'opaque', 'source': 'opt[opaque]', 'coord': 'opt[tuple[int,int,int]]'},
+             opaque_spec=_FC_SPEC, opaque=['tile_location', 'load_tile_metadata', '_store', '_store_single_color_tile'],
+             raises={'OSError': True},
+             requires=['tile.source is not None'] if _fn == 'store_tile' else [],
+             trace=[_same_location(_ops)] + _extra, trace_extra=[_same_location(_ops)])
+
+
+def _layout_gets_dimensions(ex, st, post, result):
+    import z3
+    from pyvc.values import eq
+    calls = [e for i, e in T.evs(st, '_tile_location')]
+    ok = len(calls) == 1 and calls[0].args[0] is post.env['tile'] and calls[0].kwargs.get('dimensions') is post.env['dimensions'] \
+        and result is calls[0].result
+    goal = z3.BoolVal(bool(ok))
+    if ok:
+        h = st.heap[post.env['self'].ref]
+        goal = z3.And(goal, eq(calls[0].args[1], h['cache_dir']), eq(calls[0].args[2], h['file_ext']))
+    yield ('layout_function_gets_tile_and_dimensions', goal,
+           'tile_location returns self._tile_location(tile, self.cache_dir, self.file_ext, .., dimensions=dimensions): the layout '
+           'function (path formulas in c05_paths) sees the address and the caller\'s dimension values')
+
+
+contract(F + 'FileCache.tile_location', props=['C05'],
+         types=dict(tile='opaque', create_dir='bool', dimensions='opaque'), returns='opaque', default_callee='opaque',
+         opaque_spec={'keys': {'pure': True}, 'sort': {'pure': True}, 'replace': {'pure': True}, '_tile_location': {'pure': True}},
+         raises={'AttributeError': True, 'TypeError': True},
+         trace=[_layout_gets_dimensions])
